@@ -48,6 +48,12 @@ func verifStub_utils_LabelsSource(expr string, node promParser.Node) []utils.Sou
 
 // ---- the entry under test: alerting or recording rule, <= 2 labels, <= 2 annotations, optional group label ----
 
+// line offset of the rule inside its file (0 for C18; harness/C02/checks.go moves the rule down to make room above it)
+var verifBase = 0
+
+// line of the group-level labels key (its items follow on the next lines); harness/C02/checks.go makes it symbolic
+var verifGroupLine = 20
+
 func verifPos(line int) diags.PositionRanges {
 	return diags.PositionRanges{{Line: line, FirstColumn: 3, LastColumn: 6}}
 }
@@ -81,26 +87,26 @@ func verifMkEntry() discovery.Entry {
 	e.Path.Name = "rules.yml"
 	nl, na := verifParam("nlabels"), verifParam("nann")
 	expr := parser.PromQLExpr{
-		Value: &parser.YamlNode{Value: "sum(foo)", Pos: verifPos(2)},
+		Value: &parser.YamlNode{Value: "sum(foo)", Pos: verifPos(verifBase + 2)},
 		Query: &parser.PromQLNode{Expr: &promParser.VectorSelector{Name: "foo"}},
 	}
 	var labels *parser.YamlMap
 	if nl > 0 {
-		labels = verifMap("l", "labels", nl, 3)
+		labels = verifMap("l", "labels", nl, verifBase+3)
 	}
 	if verifParam("grouplabel") == 1 {
-		e.Group = &parser.Group{Labels: verifMap("g", "labels", 1, 20)}
+		e.Group = &parser.Group{Labels: verifMap("g", "labels", 1, verifGroupLine)}
 	}
 	if verifParam("alerting") == 1 {
-		ar := &parser.AlertingRule{Alert: *verifNode("name", 1), Expr: expr, Labels: labels}
+		ar := &parser.AlertingRule{Alert: *verifNode("name", verifBase+1), Expr: expr, Labels: labels}
 		if na > 0 {
-			ar.Annotations = verifMap("a", "annotations", na, 6)
+			ar.Annotations = verifMap("a", "annotations", na, verifBase+6)
 		}
 		e.Rule.AlertingRule = ar
 	} else {
-		e.Rule.RecordingRule = &parser.RecordingRule{Record: *verifNode("name", 1), Expr: expr, Labels: labels}
+		e.Rule.RecordingRule = &parser.RecordingRule{Record: *verifNode("name", verifBase+1), Expr: expr, Labels: labels}
 	}
-	e.Rule.Lines = diags.LineRange{First: 1, Last: 9}
+	e.Rule.Lines = diags.LineRange{First: verifBase + 1, Last: verifBase + 9}
 	return e
 }
 
